@@ -317,7 +317,7 @@ func TestC17_Prng(t *testing.T) {
 		m := rapid.SampledFrom(mechs).Draw(t, "mech")
 		gm := rapid.Bool().Draw(t, "gm")
 		c := prngCase{Mech: m.Name, GM: gm, Wrap: rapid.Bool().Draw(t, "wrap"), FailAt: -1, FailKind: "error"}
-		if rapid.IntRange(0, 9).Draw(t, "oddStrength") < 2 {
+		if chance(t, "oddStrength", 15) {
 			c.Strength = rapid.SampledFrom([]int{0, 1, 14, 15, 16, 20, 24, 31, 32, 33, 48, 64}).Draw(t, "strength")
 		} else {
 			// a strength the mode accepts for this primitive
@@ -331,15 +331,16 @@ func TestC17_Prng(t *testing.T) {
 		c.Seed = rapid.Uint64().Draw(t, "seed")
 		sizes := readSizes(m, gm)
 		n := rapid.IntRange(1, 12).Draw(t, "reads")
-		big := rapid.IntRange(0, 99).Draw(t, "pBig")
+		n = 13 - n // mostly many reads
+		pBig := rapid.SampledFrom([]int{35, 15, 5}).Draw(t, "pBig")
 		for i := 0; i < n; i++ {
-			if rapid.IntRange(0, 99).Draw(t, "big") < big {
+			if chance(t, "big", pBig) {
 				c.Reads = append(c.Reads, 3*m.maxRequest(gm)+7)
 			} else {
 				c.Reads = append(c.Reads, rapid.SampledFrom(sizes).Draw(t, "size"))
 			}
 		}
-		if rapid.IntRange(0, 9).Draw(t, "fault") < 6 {
+		if rapid.Bool().Draw(t, "fault") {
 			c.FailAt = rapid.IntRange(0, 7).Draw(t, "failAt")
 			c.FailKind = rapid.SampledFrom(faultKinds).Draw(t, "failKind")
 		}
